@@ -608,7 +608,8 @@ class Exec(object):
     def is_char_supply(e):
         def is_count(a): return isinstance(a, ast.Call) and isinstance(a.func, ast.Attribute) and a.func.attr == 'count' and isinstance(a.func.value, ast.Name) and a.func.value.id == 'itertools'
         def is_map_chr(a): return isinstance(a, ast.Call) and isinstance(a.func, ast.Name) and a.func.id == 'map' and len(a.args) == 2 and isinstance(a.args[0], ast.Name) and a.args[0].id == 'chr' and is_count(a.args[1])
-        return bool(e.args) and is_map_chr(e.args[-1]) and all(isinstance(a, ast.Constant) and isinstance(a.value, str) for a in e.args[:-1])
+        # the leading iterables (string constants or parameters holding preferred characters) only put elements in front of the unbounded tail
+        return bool(e.args) and is_map_chr(e.args[-1]) and all((isinstance(a, ast.Constant) and isinstance(a.value, str)) or isinstance(a, ast.Name) for a in e.args[:-1])
 
     def gen_of(self, p, e):
         """ListComp / SetComp / GeneratorExp -> Gen"""
@@ -1626,6 +1627,18 @@ class Exec(object):
                 self.check_inv(q, n, L, 'keep')
             xq = h.clone(); xq.pc.append(pf.z == w.z)
             outs = [xq]
+        elif kind == 'typed' and len(it) > 3 and it[3] == 'supply':
+            # for s in itertools.chain(.., map(chr, itertools.count(k))): every round gets an arbitrary string (over-approximation of the supply);
+            # the loop is left by return / break only - that the supply is not exhausted first is assumption A-char-supply, as for next()
+            self.check_inv(p, n, L, 'init')
+            h = p.clone(); self.havoc(h, mod); self.assume_inv(h, L)
+            b = h.clone(); x = fresh('it', it[1])
+            upd = {}; self.bind_target(b, st.target, x, upd); b.env.update(upd)
+            self.loop_stack.append(frame)
+            ends = self.run_block([b], st.body) + frame['continues']
+            self.loop_stack.pop()
+            for q in ends: self.check_inv(q, n, L, 'keep')
+            outs = []
         else:
             raise Unsupported('for over %s' % kind)
         for hint in L.get('exit_hints', []):
